@@ -533,7 +533,7 @@ Section Transparency.
                            if isdir_raw (norm e) then Err E_ISDIR
                            else if under_sp E (fs_key p) && hi_truthy (e_hash e) then
                                   match e_hash e with
-                                  | Some h => match assoc (v_blobs E) h with Some b => Ok b | None => Err E_NOTFOUND end
+                                  | Some h => match blob_of E h with Some b => Ok b | None => Err E_NOTFOUND end
                                   | None => Err E_NOTFOUND
                                   end
                                 else Err E_NOTFOUND
